@@ -161,7 +161,7 @@ func (p *P) gReceiveGuards(rule string) {
 	var muts []Sink
 	for _, cs := range callSites(ro, false) {
 		switch cs.Callee() {
-		case qs + "ReceiveEachPrefix", qs + "Receive", qs + "ReceiveJustification", "gpbft.convergeState.Receive", inst + "skipToDecide", inst + "tryCommit", inst + "tryCurrentPhase", inst + "updateCandidatesFromQuality", inst + "getRound":
+		case qs + "ReceiveEachPrefix", qs + "Receive", qs + "ReceiveJustification", "gpbft.convergeState.Receive", inst + "skipToDecide", inst + "tryCommit", inst + "tryCurrentPhase", inst + "updateCandidatesFromQuality", inst + "addCandidatePrefixes", inst + "getRound":
 			muts = append(muts, Sink{cs.Instr, "state touched: " + strings.TrimPrefix(cs.Callee(), "gpbft.")})
 		}
 	}
@@ -246,7 +246,40 @@ func (p *P) gProposalProvenance(rule string) {
 		}
 	}
 	p.onlyCalledFrom(rule, inst+"addCandidate", inst+"addCandidatePrefixes", inst+"tryConverge", inst+"tryCommit", inst+"skipToRound")
-	p.onlyCalledFrom(rule, inst+"addCandidatePrefixes", inst+"tryQuality", inst+"updateCandidatesFromQuality")
+	// candidates grow by prefixes only of the longest input prefix with a strong QUALITY quorum
+	// (construct-centric: whoever calls addCandidatePrefixes must pass exactly that value)
+	{
+		want := re(src[inst+"tryQuality"])
+		n := 0
+		for _, cs := range p.callersOf(inst + "addCandidatePrefixes") {
+			if cs.Instr == nil || p.c.IsTestFile(cs.Fn.Pos()) {
+				if cs.Instr == nil {
+					r.Fail(rule, inst+"addCandidatePrefixes used as a value in "+funcName(cs.Fn), p.c.Pos(cs.Fn.Pos()), "cannot bound what is added to the candidates")
+				}
+				continue
+			}
+			n++
+			a := cs.Arg(1)
+			ok := want.MatchString(a)
+			if !ok && a == "$0.proposal" {
+				// the proposal just assigned from the QUALITY tally
+				for _, fs := range fieldStores(rootOf(cs.Fn), false, "instance", "proposal") {
+					if want.MatchString(canon(fs.Store.Val)) && dominates(fs.Store, cs.Instr) {
+						ok = true
+					}
+				}
+				for _, fs := range fieldStores(rootOf(cs.Fn), false, "instance", "proposal") {
+					if !want.MatchString(canon(fs.Store.Val)) {
+						ok = false
+					}
+				}
+			}
+			r.Check(ok, rule, fmt.Sprintf("%saddCandidatePrefixes called from %s: argument is the longest input prefix with strong QUALITY quorum", inst, funcName(rootOf(cs.Fn))), p.c.InstrPos(cs.Instr), a, "candidates extended with prefixes of "+a+" — not a value backed by a strong QUALITY quorum")
+		}
+		if n < 2 {
+			r.Undecided(rule, inst+"addCandidatePrefixes: call sites", fmt.Sprintf("expected the QUALITY exit and the late-QUALITY update, found %d call sites", n))
+		}
+	}
 	p.fieldWritersMap(rule, "$0.candidates", "gpbft.newInstance", inst+"addCandidate")
 	if sr := p.fn(rule, inst+"skipToRound"); sr != nil {
 		var eff []Sink
